@@ -2,17 +2,8 @@
 """Regenerates /verif/MANIFEST.json from the table below (kept in one place so that it is always valid)."""
 import json, os, subprocess
 
-CHECKS = {
- # id: (engine, technique, level text, level note, design ref)
- "C14": ("E4 matrix + E1 chunkings",
-         "bounded-exhaustive enumeration: all strings over {CR,LF,x} up to length 8/10 x all chunkings, against a reference canonicaliser",
-         "Every string over the three byte classes the canonicalisers branch on, up to length 8 (quick) / 10 (thorough), in every chunking, is pushed through the streaming hasher (private seam and public io::Write route), the normalising reader (3 targets, all source compositions, 4 consumer sizes) and the in-memory normaliser, and compared byte for byte with a 6-line reference function; sign/verify invariance is decided for all ordered pairs of strings up to length 4/6; CR/LF are placed on every alignment across the 512/1024/8192/16384 internal edges. Exhaustive within these bounds, no sampling.",
-         "Trusted: the reference canon() (6 lines), SHA-256 crate, Ed25519 primitive. Assumes the three-class abstraction is complete (code branches only on CR / LF / other).",
-         "DESIGN.md §2 C14"),
-}
-
-NOT_YET = {
-}
+CHECKS = {k: tuple(v) for k, v in json.load(open('/verif/tools/checks.json')).items()}
+NOT_YET = {}
 
 def main():
     props = [json.loads(l) for l in open('/verif/properties.jsonl')]
